@@ -25,7 +25,7 @@ import (
 // "begin" line without an "outcome" line.
 func runCrash(b block) {
 	var raw, rawopts string
-	kv := map[string]int{"iterations": 40, "duration_ms": 1500, "runs": 1, "starts": 1, "output": 0, "copycheck": 0}
+	kv := map[string]int{"iterations": 40, "duration_ms": 1500, "runs": 1, "starts": 1, "output": 0, "copycheck": 0, "checkcheck": 0}
 	for li, fs := range b.lines {
 		switch fs[0] {
 		case "json":
@@ -129,6 +129,9 @@ loop:
 			}
 			return nextroute.NewSolution(m)
 		})
+	}
+	if kv["checkcheck"] == 1 && last != nil {
+		fullCheck(b.id, model, last)
 	}
 	if kv["output"] == 1 && last != nil {
 		js, _ := json.Marshal(factory.ToSolutionOutput(last))
